@@ -17,7 +17,8 @@ TIMEOUT = {'quick': 300, 'thorough': 3300}
 N_HIST = {'quick': 500, 'thorough': 25000}
 RULE = ('cases: seeded histories of 5-20 adds/removes of named cell components on LineWorld, GridWorld, DiscreteWorld shapes (non-cubic, '
         'with zero extents in any position); sources per add: callable (value encodes (x,y,z)), list, numpy array (int/float/object '
-        'dtype), ConstantGenerator, LookupGenerator with a fully 3-nested table, LookupGenerator with a table of the world\'s own '
+        'dtype), ConstantGenerator, LookupGenerator with a fully 3-nested table (also edited / replaced between construction and use, or re-used for a '
+        'second component), user subclasses of both bundled generators overriding __call__, LookupGenerator with a table of the world\'s own '
         'dimensionality (1-D table on a line, 2-D on a flat grid); after every op every column is compared with its shadow, the cell set '
         'and pos column with the original, random get_cell rows with the shadows; the caller\'s list/array is mutated after the add; '
         'unknown removals must raise ComponentNotFoundError and change nothing. Non-trivial history: >=3 different source kinds, >=1 '
@@ -25,7 +26,7 @@ RULE = ('cases: seeded histories of 5-20 adds/removes of named cell components o
 ASSUMPTIONS = ['removing np.copy is observationally invisible under pandas copy-on-write (stated reach limit)',
                'generators are pure functions of the coordinates', 'F4 (LookupGenerator on low-dimensional worlds) is a known finding']
 FLOORS = {'quick': {'column_comparisons': 8000, 'src_callable': 330, 'src_list': 310, 'src_numpy': 320, 'src_constant': 300,
-                    'src_lookup3': 300, 'src_lookup_lowdim': 190, 'removals': 400, 'in_place_updates': 300, 'rejected_unknown_removal': 300, 'source_mutations': 600,
+                    'src_lookup3': 300, 'src_subclassed': 200, 'lookup_table_changed_before_use': 100, 'source_mutated_before_first_read': 200, 'src_lookup_lowdim': 190, 'removals': 400, 'in_place_updates': 300, 'rejected_unknown_removal': 300, 'source_mutations': 600,
                     'get_cell_rows': 3000, 'shapes_line': 50, 'shapes_grid': 50, 'shapes_3d': 50, 'shapes_degenerate': 50,
                     'generator_calls_checked': 2500, 'reach:Environments.DiscreteWorld.add_cell_component': 1900,
                     'reach:Environments.LookupGenerator.__call__': 1000},
@@ -112,8 +113,9 @@ def case_history(ctx, case):
         if x < 0.62 and free:
             name = rng.choice(free)
             salt = step + 1
-            src = rng.choice(['callable', 'list', 'numpy', 'constant', 'lookup3', 'lookup_lowdim' if lowdim_ok else 'lookup3'])
+            src = rng.choice(['callable', 'list', 'numpy', 'constant', 'lookup3', 'lookup_lowdim' if lowdim_ok else 'lookup3', 'subclassed'])
             exp = None
+            mutate_first = rng.random() < 0.5        # change the caller's object BEFORE anything reads the cell table again
             if src == 'callable':
                 calls = []
 
@@ -145,14 +147,56 @@ def case_history(ctx, case):
                 env.add_cell_component(name, arr)
                 exp = list(vals)
                 verify_after = arr
+            elif src == 'subclassed':
+                # user generators derived from the bundled ones: their own __call__ decides the value
+                base = rng.choice(['constant', 'lookup'])
+                if base == 'constant':
+                    class G(envs.ConstantGenerator):
+                        def __call__(self, pos, cells, salt=salt):
+                            return code(pos, salt)
+                    g = G(rng.choice([np.float64(1.5), np.int64(3), 7, 'k']))
+                else:
+                    class G(envs.LookupGenerator):
+                        def __call__(self, pos, cells, salt=salt):
+                            return code(pos, salt) + self.table[0]
+                    g = G([5])
+                env.add_cell_component(name, g)
+                exp = [code(p_, salt) + (5 if base == 'lookup' else 0) for p_ in table]
             elif src == 'constant':
                 v = rng.choice([0, 1, -2.5, 'k', None, True])
                 env.add_cell_component(name, envs.ConstantGenerator(v))
                 exp = [v] * ncells
             elif src == 'lookup3':
                 tab = [[[code((xx, yy, zz), salt) for zz in range(n_axes[2])] for yy in range(n_axes[1])] for xx in range(n_axes[0])]
-                env.add_cell_component(name, envs.LookupGenerator(tab))
-                exp = [code(p, salt) for p in table]
+                style = rng.choice(['direct', 'direct', 'edited_after_construction', 'table_replaced', 'reused'])
+                if style == 'direct':
+                    env.add_cell_component(name, envs.LookupGenerator(tab))
+                    exp = [code(p, salt) for p in table]
+                elif style == 'edited_after_construction':
+                    g = envs.LookupGenerator(tab)
+                    tab[0][0][0] = -5            # the table is edited between constructing the generator and using it
+                    env.add_cell_component(name, g)
+                    exp = [code(p, salt) if p != (0, 0, 0) else -5 for p in table]
+                    ctx.count('lookup_table_changed_before_use')
+                elif style == 'table_replaced':
+                    g = envs.LookupGenerator([[[0] * n_axes[2] for _ in range(n_axes[1])] for _ in range(n_axes[0])])
+                    g.table = tab                # documented attribute
+                    env.add_cell_component(name, g)
+                    exp = [code(p, salt) for p in table]
+                    ctx.count('lookup_table_changed_before_use')
+                else:
+                    g = envs.LookupGenerator(tab)
+                    env.add_cell_component(name, g)
+                    exp = [code(p, salt) for p in table]
+                    shadow[name] = exp
+                    second = [n for n in names if n not in shadow]
+                    if second:               # the same generator object fills a second component after its table changed
+                        for xx in range(n_axes[0]):
+                            tab[xx][0][0] += 100000
+                        env.add_cell_component(second[0], g)
+                        shadow[second[0]] = [code(p, salt) + (100000 if p[1] == 0 and p[2] == 0 else 0) for p in table]
+                        ctx.count('lookup_table_changed_before_use')
+                        trace.append(('add', second[0], 'lookup3-reused'))
             else:   # table of the world's own dimensionality on a line / flat grid
                 if npos == 1:
                     tab = [code((xx, 0, 0), salt) for xx in range(n_axes[0])]
@@ -175,7 +219,10 @@ def case_history(ctx, case):
             kinds_used.add(src)
             shadow[name] = exp
             trace.append(('add', name, src))
-            verify(f'after add {name} from {src}')
+            if not (mutate_first and src in ('list', 'numpy')):
+                verify(f'after add {name} from {src}')
+            else:
+                ctx.count('source_mutated_before_first_read')
             if src in ('list', 'numpy'):
                 # later changes to the caller's object must not show through
                 for i in range(len(verify_after)):
